@@ -59,7 +59,7 @@ func reflexive(x1, x2 any) reflObs {
 	return reflObs{D: o.D, C: o.C, M: m, Pan: o.Pan || p}
 }
 
-// project: absval with one more fact for unsigned leaves above MaxInt64 ("wrap": the decimal record of the int64
+// project: absval with one more fact for unsigned leaves above MaxInt64 ("wrap": the projection of the int64
 // with the same bit pattern), which the specification needs for its one open cell.
 func project(v any) any {
 	switch t := v.(type) {
@@ -91,7 +91,7 @@ func project(v any) any {
 func wrapFact(u uint64, p any) any {
 	if u > math.MaxInt64 {
 		m := p.(map[string]any)
-		m["wrap"] = absval.Dec(strconv.FormatInt(int64(u), 10))
+		m["wrap"] = absval.Atoms(int64(u)) // the whole integer leaf the bits denote as int64
 	}
 	return p
 }
